@@ -420,7 +420,12 @@ class Effects:
                         if pos_sets is not None and i < len(pos_sets) and not any(isinstance(x, ast.Starred) for x in t.elts):
                             bind_target(e, pos_sets[i])
                         elif isinstance(value, (ast.Tuple, ast.List)) and len(value.elts) == len(t.elts):
-                            bind_target(e, self.alias(value.elts[i], st, fi), value.elts[i])
+                            vi = value.elts[i]
+                            ri = self.alias(vi, st, fi)
+                            # a, b = [X], {}: `a` is a new list holding X, not X itself
+                            if isinstance(vi, (ast.List, ast.Set, ast.Dict, ast.ListComp, ast.SetComp, ast.DictComp)) or (isinstance(vi, ast.Call) and isinstance(vi.func, ast.Name) and vi.func.id in ("list", "set", "sorted", "dict") and vi.args):
+                                ri = tag(ri)
+                            bind_target(e, ri, vi)
                         else:
                             bind_target(e, roots)
                 elif isinstance(t, ast.Starred):
